@@ -18,7 +18,7 @@ def random_ops(r, n, depth=0):
         elif k == 9: ops.append(['advupto'] + r.choice(KSETS))
         elif k == 10: ops.append(['setfilter', r.choice(FILTERS)])
         elif k == 11: ops.append(r.choice(['sublex', 'intosub']))
-        elif k == 12: ops.append('query')
+        elif k == 12: ops.append(r.choice(['query', 'emptyf', 'emptyf']))
         elif k in (13, 14) and depth < 2: ops.append(['clone'] + random_ops(r, 1 + r.below(3), depth + 1))
         else: ops.append('next')
     return ops
@@ -31,7 +31,7 @@ class C05(ParseProp):
     files = ['tephra/src/lexer.rs']
     rule = ('seeded random operation histories (length <= tier bound) over next/peek/next_if/next_if_eq/advance_to/'
             'advance_up_to/set_filter/start_sublex/into_sublexer/clone-with-nested-ops/queries, plus all length-3 '
-            'histories over a core op set, on random texts with filtered tokens and a rejected char, with plain, counting '
+            'histories over a core op set (incl. is_empty_with_filter; peek_parse_span and peek_cursor_pos are observed after every operation), on random texts with filtered tokens and a rejected char, with plain, counting '
             '(tokens expose the number of scans) and modal scanners; the delivered (token, span) sequence is compared with '
             'a reference lexer that only advances under the same filter changes, clones are drained to exhaustion; '
             'non-trivial = history with a lookahead or clone or sublex before a later delivery; distinct by case')
@@ -132,6 +132,10 @@ class C05(ParseProp):
                 state['delivered'] = False
             elif name == 'query':
                 pass
+            elif name == 'emptyf':
+                # is_empty_with_filter may say 'empty' only when nothing is deliverable (it looks ahead like peek)
+                if o['res'] == 'T' and ref.peek() is not None:
+                    fails.append((where, 'is_empty_with_filter returned true although %s is still deliverable' % ref.peek()['tok'])); raise StopIteration
             elif name == 'drain':
                 want = [[t['tok'], t['span'], t['range']] for t in ref.drain()]
                 if o['res'] != want:
